@@ -46,6 +46,7 @@ var groups = []group{
 	{"short", []string{"L0", "RS", "P0"}, []string{"RS", "P0"}},  // issued by a root; the leaf is a root (empty chain)
 	{"sameleaf", []string{"L1", "L1r", "PP"}, []string{"L1r"}},   // one leaf posted twice; precert via pre-issuer
 	{"long", []string{"L3", "P4", "PS"}, []string{"P2"}},         // three intermediates; second root; refused precert
+	{"cross", []string{"L1", "L1x", "P1x"}, []string{"L1x"}},     // one issuing CA, two paths above it (root A / root A cross-certified by root B)
 }
 
 func idx(names []string) []int {
